@@ -15,6 +15,59 @@ from .C10 import check_registration_only_open, check_terminal_frame
 from .C12 import reader_terms, writer_terms
 
 
+def check_alloc_lock(ctx: Ctx, oid: str) -> None:
+    """C18.b (also C02.k): id allocation and get-or-create of the channel object happen inside the factory's write lock"""
+    repo = ctx.repo
+    locks = LockSets(repo)
+    fn = repo.func(f"{GB}.ChannelFactory.new")
+    evn = evaluator(repo, fn)
+    COUNT = ("sym", "self.count")
+    idp = ("sym", fn.params()[1])
+    with ctx.obligation(oid, "alloc-lock") as ob:
+        fn = repo.func(f"{GB}.ChannelFactory.new")
+        n = 0
+        for x in repo.own_nodes(fn):
+            hit = None
+            if isinstance(x, ast.Attribute) and x.attr == "count" and unparse(x.value) == "self":
+                hit = "count access"
+            if isinstance(x, ast.Attribute) and x.attr == "_channels" and unparse(x.value) == "self":
+                hit = "_channels get-or-create"
+            if hit:
+                n += 1
+                held = locks.held(fn, x)
+                ob.site(fn, x, hit, held=sorted(held))
+                if WRITELOCK not in held:
+                    ob.violation(fn, x, f"{hit} outside _writelock: two threads can obtain the same id / two Channel objects for one id")
+        ob.require(n >= 4, f"{n} counter/table accesses in new() (floor 4)")
+        # the created channel gets the allocated id and the factory's gateway, and is registered under that id
+        nmk = 0
+        for (pth, st) in evn.run(limit=4000):
+            if pth[-1][0] != evn.cfg.exit.id:
+                continue
+            auto = st.known.get(("cmp", "is", idp, ("const", None)))
+            want_id = COUNT if auto is True else idp
+            mk = [e for e in st.events if e.kind == "call" and e.callee == "Channel"]
+            if auto is None:
+                ob.violation(fn, fn.node, "new() does not distinguish a requested id from an automatic one")
+                continue
+            looked = [e for e in st.events if (e.kind == "call" and e.callee == "self._channels.get" and e.args[:1] == (want_id,))]
+            if mk:
+                nmk += 1
+                if mk[0].args != (("sym", "self.gateway"), want_id):
+                    ob.violation(fn, mk[0].node, "the new Channel is not created with (gateway, allocated id)")
+                reg = [e for e in st.events if e.kind == "store" and e.target == "self._channels" and e.key == want_id and e.value == mk[0].result]
+                if not reg:
+                    ob.violation(fn, mk[0].node, "the new Channel is not registered under its id")
+                if st.ret != mk[0].result:
+                    ob.violation(fn, mk[0].node, "new() does not return the channel it created")
+            else:
+                ok = st.ret in [("idx", ("sym", "self._channels"), want_id)] + [e.result for e in looked]
+                if not ok:
+                    ob.violation(fn, fn.node, f"new() returns {show(st.ret) if st.ret else None}: not the channel registered under the id")
+        ob.require(nmk >= 1, "Channel(...) not found in new()")
+
+
+
 def check(ctx: Ctx) -> None:
     repo = ctx.repo
     ctx.decides = ("id parity: the initiating gateway starts at 1, the worker at 2 (even default), step 2; allocation and get-or-create inside "
@@ -85,48 +138,7 @@ def check(ctx: Ctx) -> None:
                         if isinstance(t, ast.Attribute) and t.attr == "count" and repo.type_of(t.value, f) == "ChannelFactory":
                             ob.violation(f, n, "the channel id counter is written outside ChannelFactory.new")
 
-    with ctx.obligation("C18.b", "alloc-lock") as ob:
-        fn = repo.func(f"{GB}.ChannelFactory.new")
-        n = 0
-        for x in repo.own_nodes(fn):
-            hit = None
-            if isinstance(x, ast.Attribute) and x.attr == "count" and unparse(x.value) == "self":
-                hit = "count access"
-            if isinstance(x, ast.Attribute) and x.attr == "_channels" and unparse(x.value) == "self":
-                hit = "_channels get-or-create"
-            if hit:
-                n += 1
-                held = locks.held(fn, x)
-                ob.site(fn, x, hit, held=sorted(held))
-                if WRITELOCK not in held:
-                    ob.violation(fn, x, f"{hit} outside _writelock: two threads can obtain the same id / two Channel objects for one id")
-        ob.require(n >= 4, f"{n} counter/table accesses in new() (floor 4)")
-        # the created channel gets the allocated id and the factory's gateway, and is registered under that id
-        nmk = 0
-        for (pth, st) in evn.run(limit=4000):
-            if pth[-1][0] != evn.cfg.exit.id:
-                continue
-            auto = st.known.get(("cmp", "is", idp, ("const", None)))
-            want_id = COUNT if auto is True else idp
-            mk = [e for e in st.events if e.kind == "call" and e.callee == "Channel"]
-            if auto is None:
-                ob.violation(fn, fn.node, "new() does not distinguish a requested id from an automatic one")
-                continue
-            looked = [e for e in st.events if (e.kind == "call" and e.callee == "self._channels.get" and e.args[:1] == (want_id,))]
-            if mk:
-                nmk += 1
-                if mk[0].args != (("sym", "self.gateway"), want_id):
-                    ob.violation(fn, mk[0].node, "the new Channel is not created with (gateway, allocated id)")
-                reg = [e for e in st.events if e.kind == "store" and e.target == "self._channels" and e.key == want_id and e.value == mk[0].result]
-                if not reg:
-                    ob.violation(fn, mk[0].node, "the new Channel is not registered under its id")
-                if st.ret != mk[0].result:
-                    ob.violation(fn, mk[0].node, "new() does not return the channel it created")
-            else:
-                ok = st.ret in [("idx", ("sym", "self._channels"), want_id)] + [e.result for e in looked]
-                if not ok:
-                    ob.violation(fn, fn.node, f"new() returns {show(st.ret) if st.ret else None}: not the channel registered under the id")
-        ob.require(nmk >= 1, "Channel(...) not found in new()")
+    check_alloc_lock(ctx, "C18.b")
 
     with ctx.obligation("C18.c", "channel-codec") as ob:
         wt = writer_terms(repo)
@@ -184,3 +196,5 @@ def check(ctx: Ctx) -> None:
 
     check_registration_only_open(ctx, "C18.f")
     check_terminal_frame(ctx, "C18.e")
+    from .C03 import check_del_notifies
+    check_del_notifies(ctx, "C18.g")
